@@ -10,7 +10,7 @@
    A history is any list of: HFail elapsed u (an attempt ended - transport failure or dropped
    stream - and next() is consulted [elapsed] after the start of the series, RNG draw u in [0,1)),
    HSuccess (a response was validated: reset(0)), HRetry ms (the server sent "retry: ms"). *)
-From GoSse Require Import Base Backoff BackoffProofs.
+From GoSse Require Import Base Whatwg Backoff BackoffProofs Connect ConnectClass ConnectSchedule.
 From GoSse.Gen Require Import Params.
 Local Open Scope Z_scope.
 
@@ -146,3 +146,46 @@ Proof.
   split; [|split; [|split]]; try (vm_compute; repeat split; reflexivity).
   intros e u [H|[H|[H|[]]]]; try discriminate. injection H as <- <-. vm_compute. split; [discriminate|reflexivity].
 Qed.
+
+(* ---- the schedule as Connect uses it ------------------------------------------------------------
+   For every run of the model of Connection.Connect (Connect.v; see props/C10.v) that made n
+   requests: the backoff controller has seen exactly the history [script_hops] of the first n
+   attempts - HSuccess when a response is VALIDATED (so every attempt end, transport failure or
+   dropped stream, consumes one retry of the series that starts there), HRetry ms for every valid
+   retry field of the stream in order, HFail (clock, draw) for every retryable attempt end - and
+     - OnRetry (when set) was called exactly once per granted retry, in order, with the wait next()
+       returned and the error of the attempt that ended;
+     - a refusal of next() is the last consultation of the run.
+   Together with C12_schedule (which describes every answer of [bc_run] on every history) this is
+   the statement of the property about OnRetry durations and attempt counts. *)
+Theorem C12_connect_schedule :
+  forall cfg script tr r,
+  cc_cancel_before cfg = false ->
+  connect_run cfg script = (tr, r) ->
+  let b := merge_defaults (cc_backoff cfg) in
+  let n := length (requests tr) in
+  let answers := snd (bc_run b (script_hops [] (firstn n script))) in
+  (if cc_on_retry cfg
+   then map snd (on_retries tr) = granted answers /\
+        map fst (on_retries tr) = firstn (length (on_retries tr)) (retry_errors (firstn n script))
+   else on_retries tr = []) /\
+  refusal_is_final answers.
+Proof. exact run_schedule. Qed.
+
+(* the history of an accepted response starts with the reset *)
+Theorem C12_validated_response_resets :
+  forall lid st body en, st_attempt st = AStream body en -> exists tail, attempt_hops lid st = HSuccess :: tail.
+Proof. exact attempt_hops_stream. Qed.
+
+(* non-vacuity: base 7 ms, Multiplier 1.5, MaxInterval 20 ms, MaxRetries 3; "retry: 40\n\n" then EOF, then
+   failures: OnRetry gets 40 ms (server value), 20 ms (cap), 20 ms; the fourth attempt end of the series is refused *)
+Definition ex_retry40 : bytes := [114; 101; 116; 114; 121; 58; 32; 52; 48; 10; 10]%N.
+Definition ex_conn : ccfg :=
+  mkccfg (mkbackoff (ex_ms 7) (mkrat 3 2) (mkrat (-1) 1) (ex_ms 20) 0 3) BNone true None false None.
+Definition ex_st (a : attempt) : step := mkstep a 0 (mkrat 0 1).
+Example C12_example_connect :
+  let '(tr, r) := connect_run ex_conn (map ex_st [ATransportErr 1; AStream ex_retry40 CleanEOF; ATransportErr 2;
+                                                  ATransportErr 3; ATransportErr 4; ATransportErr 5]) in
+  map snd (on_retries tr) = [ex_ms 7; ex_ms 40; ex_ms 20; ex_ms 20] /\
+  length (requests tr) = 5%nat /\ r = Some (RConn RsConnect (CE (EReader 4))).
+Proof. vm_compute. repeat split; reflexivity. Qed.
